@@ -182,6 +182,31 @@ def run(ctx):
             osets = allsets if idx % 12 == 0 else r.sample(cover, 12)
         judge_doc(ctx, eng, d, osets, label, ident)
         res.count("docs:" + label)
+    # the alignment arithmetic at its edge: for every object type the two longest non-block keywords, written with
+    # align_values=True under EVERY indent 0..8 and both spacers (the value column is computed from the longest keyword and the indent;
+    # a keyword that reaches the column must still be separated from its value) - own random stream, after everything else
+    r2 = ctx.rng("c06-longest-keywords")
+    per_obj = {}
+    for i, (o, k, ai) in enumerate(gen.vocab_slots()):
+        a = vocab.prop(o, k).alts[ai]
+        if a.kind == "block" or (o, k) in gen.UNWRITABLE:
+            continue
+        per_obj.setdefault(o, {}).setdefault(k, ai)
+    edge = [dict(indent=ind, spacer=sp, quote='"', newlinechar="\n", end_comment=False, align_values=True, separate_complex_types=False)
+            for ind in engine.INDENTS for sp in engine.SPACERS]
+    for oi_, (o, ks) in enumerate(sorted(per_obj.items())):
+        if not ctx.mine(oi_):
+            continue
+        for k in sorted(ks, key=lambda kk: (-len(kk), kk))[:2]:
+            node, it = gen.vocab_doc(r2, o, k, ks[k], "middle")
+            gen.apply_gates(node, ctx.gated)
+            try:
+                d = eng.loads(render.render([node]).text)
+            except Exception:
+                res.count("longest_keyword_docs_rejected")
+                continue
+            judge_doc(ctx, eng, d, edge, "longest-keyword", f"{o}.{k}")
+            res.count("docs:longest-keyword")
     if docs and not res.samples:
         d = docs[-1][2]
         res.sample({"options": engine.opt_key(cover[5]), "text": eng.dumps(copy.deepcopy(d), **cover[5])[:600]})
